@@ -186,9 +186,9 @@ check(
           "ColLowCardinalityRaw/ColRaw, DecodeAware. Distinct = hash of mutated bytes + mode + targets. Non-trivial = the "
           "mutation hit a structural field (not payload/name bytes), arbitrary-byte message inputs, or any compressed case."),
     quick=[unit("codec", "^TestC06(Block|Column|Message|Compressed|Saved)", checks=12000, timeout=900,
-                ulimit_v=6 * 1024 * 1024, crash_oracle=True)],
+                ulimit_v=10 * 1024 * 1024, crash_oracle=True)],
     thorough={"units": [unit("codec", "^TestC06(Block|Column|Message|Compressed|Saved)", checks=150000, timeout=10000, shards=16,
-                            ulimit_v=6 * 1024 * 1024, crash_oracle=True)],
+                            ulimit_v=10 * 1024 * 1024, crash_oracle=True)],
               "fuzz": [dict(pkg="codec", target="FuzzDecodeBlockAuto", seconds=420, workers=4),
                        dict(pkg="codec", target="FuzzDecodeBlockTyped", seconds=420, workers=4),
                        dict(pkg="codec", target="FuzzMessages", seconds=420, workers=4),
@@ -197,7 +197,7 @@ check(
     replay_run="^TestC06Replay$",
     manifest=dict(
         text="Structure-aware mutation search with the semantic oracle inside the target: no panic (recovered => violation), "
-             "returns within a watchdog bound, the process is never killed by the runtime (run under ulimit -v 6 GiB with the "
+             "returns within a watchdog bound, the process is never killed by the runtime (run under ulimit -v 10 GiB with GOMEMLIMIT=1200MiB with the "
              "library's caps lowered through the verif hook; a dead worker is a violation whose replay is the case file written "
              "before the decode), and on success every column reports the block's row count and every row accessor works for "
              "every sampled index. Committed reproductions of fixed findings are replayed first.",
